@@ -33,7 +33,7 @@ TrMol == /\ IsOp("Mol") /\ Clause("order_Mol", phase = "writing")
          /\ LET k == NextComplete IN
             /\ Clause("one_molecule_per_complete_input_molecule_in_file_order", k # 0 /\ Ev[l].src = k)
             /\ Clause("target_atom_count_names_and_order", Ev[l].n = cfg.tgt[cfg.mols[k]])
-            /\ Clause("atom_numbers_run_consecutively_from_one", Ev[l].first = natoms + 1 /\ Ev[l].consecutive)
+            /\ Clause("atom_numbers_run_consecutively_from_one", Ev[l].first = (natoms + 1) % 100000 /\ Ev[l].consecutive)     \* five columns: ..., 99999, 0, 1, ...
             /\ Clause("residue_numbers_of_the_input_molecule", Ev[l].resids)
             /\ Clause("equals_exchange_map_of_the_input_molecule", Ev[l].pos)
             /\ cursor' = k + 1 /\ natoms' = natoms + Ev[l].n
